@@ -20,6 +20,8 @@ def make(it):
     @reg('len')
     def _len(it, args, kw, n):
         v = args[0]
+        if hasattr(v, 'py_len'):
+            return v.py_len(it)
         if isinstance(v, (str, bytes, tuple, list, SBytes, range)):
             return len(v)
         if isinstance(v, PList):
